@@ -171,8 +171,8 @@ def r03_2(chk, P, rule='R03.2'):
     return n
 
 
-def r03_5(chk, P):
-    chk.rule('R03.5', 'a cleared vorbis_info is tolerated by everything vorbisfile hands it to: after a failed header fetch at a '
+def r03_5(chk, P, rule='R03.5', roots=None, context=None):
+    chk.rule(rule, 'a cleared vorbis_info is tolerated by everything vorbisfile hands it to: after a failed header fetch at a '
              'link boundary of a non-seekable stream the handle keeps vf->vi cleared (codec_setup == NULL) and stays open; '
              'every libvorbis function that vorbisfile.c calls with a vorbis_info argument (and every function that argument is '
              'passed on to) is analysed with codec_setup == NULL on entry (K4): no member access through the null pointer is '
@@ -181,8 +181,11 @@ def r03_5(chk, P):
     from absint import V
     todo = []
     seen = set()
+    for (rn, ri) in (roots or []):
+        seen.add((P.key(P.need(rn)), ri))
+        todo.append((P.key(P.need(rn)), ri))
     for F in P.functions():
-        if not F.file.endswith('vorbisfile.c'):
+        if roots is not None or not F.file.endswith('vorbisfile.c'):
             continue
         for c in F.calls():
             for t in P.call_targets(F, c):
@@ -213,16 +216,38 @@ def r03_5(chk, P):
         A.initial_env = init
         bad = {}
         passed = set()
+        sdefs = common.single_defs(G)
 
         def obs(A_, env, e, v, pid=pid):
             nd = A_.ex[e]
-            if nd['k'] == 'member' and nd.get('arrow'):
+            par_ = A_.F.sparent.get(e)
+            if nd['k'] == 'member' and nd.get('arrow') and not (par_ is not None and A_.ex[par_]['k'] == 'un' and A_.ex[par_]['op'] == '&'):
                 b = A_.F.strip_casts(nd['c'][0])
                 bp = A_.rpath(b, env)
                 if bp == f'v{pid}->codec_setup':
                     bv = env.get(bp)
                     if isinstance(bv, V) and (bv.nn is False or bv.const() == 0):
                         bad.setdefault(e, A_.F.s(e))
+                else:
+                    # a local that holds the address of a member of the set-up (hi = &ci->hi): null-derived while ci is null
+                    bn = A_.ex[b]
+                    if bn['k'] == 'ref' and bn['decl'].get('kind') == 'var':
+                        sd = sdefs.get(bn['decl'].get('id'))
+                        dn = A_.ex[A_.F.strip_casts(sd)] if sd is not None else None
+                        if dn is not None and dn['k'] == 'un' and dn['op'] == '&':
+                            mn = A_.ex[A_.F.strip_casts(dn['c'][0])]
+                            if mn['k'] == 'member' and mn.get('arrow'):
+                                yb = A_.F.strip_casts(mn['c'][0])
+                                yn = A_.ex[yb]
+                                yv = None
+                                if A_.rpath(yb, env) == f'v{pid}->codec_setup':
+                                    yv = env.get(f'v{pid}->codec_setup')
+                                elif yn['k'] == 'ref' and yn['decl'].get('kind') == 'var':
+                                    yd = sdefs.get(yn['decl'].get('id'))
+                                    if yd is not None and A_.rpath(A_.F.strip_casts(yd), env) == f'v{pid}->codec_setup':
+                                        yv = env.get(f'v{yn["decl"]["id"]}')
+                                if isinstance(yv, V) and (yv.nn is False or yv.const() == 0) and yv.nn is not True:
+                                    bad.setdefault(e, A_.F.s(e))
             if nd['k'] == 'call':
                 for tt in P.call_targets(A_.F, e):
                     if tt.startswith(('ext:', 'cb:', 'unk:')):
@@ -241,10 +266,10 @@ def r03_5(chk, P):
                 seen.add(x)
                 todo.append(x)
         e0 = sorted(bad, key=lambda x: G.ex[x].get('loc') or [0, 0])[0] if bad else None
-        chk.ob('R03.5', G.name, f'tolerates-cleared-info:{G.params[i]["name"]}', not bad, G.where(e0) if e0 else G.where(),
+        chk.ob(rule, G.name, f'tolerates-cleared-info:{G.params[i]["name"]}', not bad, G.where(e0) if e0 else G.where(),
                'no access through a null codec_setup is reachable' if not bad else
-               f'{bad[e0]} is evaluated with codec_setup == NULL (no test of it on the way): vorbisfile calls this on a handle '
-               'whose info was cleared by a failed header fetch at a link boundary')
+               f'{bad[e0]} is evaluated with codec_setup == NULL (no test of it on the way): ' +
+               (context or 'vorbisfile calls this on a handle whose info was cleared by a failed header fetch at a link boundary'))
         n += 1
     return n
 
